@@ -21,7 +21,7 @@ import (
 
 func TestMain(m *testing.M) {
 	time.Local = time.UTC
-	ev.Describe("histories of 1..40 API calls (all 32 operations, arguments drawn by construction from the accepted domain incl. nil/partial/foreign-key maps, 4- and 16-byte IPs, dates as ToDate and as Date(time.Date(.., other zone)), SetTime in UTC/fixed/IANA zones with sub-seconds) on two clients that share the process; after every call the recording in-memory driver must have seen exactly one invocation whose 64 bytes equal the independent protocol model's encoding of that call alone. Non-trivial = request with a non-zero byte at offset >= 8 or an operation without payload; distinct = distinct (operation, request bytes).",
+	ev.Describe("histories of 1..40 API calls (all 32 operations, arguments drawn by construction from the accepted domain incl. nil/partial/foreign-key maps, 4- and 16-byte IPs, dates as ToDate and as Date(time.Date(.., other zone)), SetTime in UTC/fixed/IANA zones with sub-seconds) on two clients that share the process (debug output on or off, configured controllers with every kind of configured time zone); after every call the recording in-memory driver must have seen exactly one invocation whose 64 bytes equal the independent protocol model's encoding of that call alone. Socket-layer sample (wire): the real UDP/TCP driver on each delivery path (broadcast, connected UDP, TCP), bind port 0 or fixed, debug off/on - the loopback controller must receive exactly one message, byte-for-byte the protocol encoding. Non-trivial = request with a non-zero byte at offset >= 8 or an operation without payload; distinct = distinct (operation, request bytes).",
 		"hook layer: the transport is replaced through the `verif` build-tag hook, so the real sockets are covered by the socket-layer sample (TestWire) and by C06",
 		"the protocol model (harness/spec) is a transcription cross-checked against SDK vectors in harness/spec tests")
 	ev.Main(m, "C01")
@@ -40,17 +40,17 @@ type history struct {
 }
 
 func genCfg(t *rapid.T, serials []uint32) hook.ClientCfg {
-	c := hook.ClientCfg{HasBroadcast: rapid.Bool().Draw(t, "has_broadcast"), BroadcastIP: [4]byte{192, 168, 1, 255}, BroadcastPort: 60005}
+	c := hook.ClientCfg{HasBroadcast: rapid.Bool().Draw(t, "has_broadcast"), BroadcastIP: [4]byte{192, 168, 1, 255}, BroadcastPort: 60005, Debug: gen.Debug(t, "debug")}
 	for _, s := range serials {
 		switch rapid.IntRange(0, 3).Draw(t, "device.kind") {
 		case 0: // not configured
 		case 1:
-			c.Devices = append(c.Devices, hook.DeviceCfg{Serial: s, HasAddr: true, IP: [4]byte{10, 0, 0, 7}, Port: 60000, ViaNew: rapid.Bool().Draw(t, "via.new"),
+			c.Devices = append(c.Devices, hook.DeviceCfg{Serial: s, HasAddr: true, IP: [4]byte{10, 0, 0, 7}, Port: 60000, ViaNew: rapid.Bool().Draw(t, "via.new"), TZ: gen.DeviceTZ(t, "tz"),
 				Protocol: rapid.SampledFrom([]string{"udp", "udp", "", "any", "UDP", "TCP", "auto"}).Draw(t, "protocol")})
 		case 2:
-			c.Devices = append(c.Devices, hook.DeviceCfg{Serial: s, HasAddr: true, IP: [4]byte{10, 0, 0, 8}, Port: 54321, Protocol: "tcp", ViaNew: rapid.Bool().Draw(t, "via.new")})
+			c.Devices = append(c.Devices, hook.DeviceCfg{Serial: s, HasAddr: true, IP: [4]byte{10, 0, 0, 8}, Port: 54321, Protocol: "tcp", ViaNew: rapid.Bool().Draw(t, "via.new"), TZ: gen.DeviceTZ(t, "tz")})
 		default:
-			c.Devices = append(c.Devices, hook.DeviceCfg{Serial: s, Protocol: "udp"})
+			c.Devices = append(c.Devices, hook.DeviceCfg{Serial: s, Protocol: "udp", TZ: gen.DeviceTZ(t, "tz")})
 		}
 	}
 	return c
@@ -310,6 +310,7 @@ func sweepBytes(yield func(history) bool) {
 func props() []rp.Prop {
 	return []rp.Prop{
 		rp.P[history]{Name: "history", Checks: ev.Pick(12000, 2000000) / ev.Shards(), Gen: genHistory, Sweep: sweepBytes, Check: checkHistory},
+		rp.P[wireCase]{Name: "wire", Checks: ev.Pick(1200, 60000) / ev.Shards(), Gen: genWire, Check: checkWire},
 	}
 }
 
